@@ -6,6 +6,8 @@ package main
 import (
 	"bytes"
 	"crypto/sha256"
+	"fmt"
+	"io"
 	"math/big"
 	"reflect"
 	"strings"
@@ -300,4 +302,275 @@ func (k kzgBn254) ser(kind string, s any, h any, vs []*big.Int) string {
 		return ""
 	}
 	return "bad-kind"
+}
+
+// ---- objects on shared readers / re-used destinations ------------------------------------------------------------
+
+// codec of one object kind: writer of the source object, reader into the destination dst (a fresh object when dst is nil or of
+// another type), equality of the destination with the source. Counts are -1 when the API reports none (dump).
+func (k kzgBn254) codec(kind string, s any, h any, vs []*big.Int, dst any) (c11codec, any) {
+	var srs *kzg.SRS
+	if s != nil {
+		srs = s.(*kzg.SRS)
+	}
+	switch kind {
+	case "srs", "srsraw", "srsunsafe", "srsunsafec", "dump":
+		d, ok := dst.(*kzg.SRS)
+		if !ok {
+			d = new(kzg.SRS)
+		}
+		cd := c11codec{same: func() string {
+			if !reflect.DeepEqual(*srs, *d) {
+				return fmt.Sprintf("differs(%d-points)", len(d.Pk.G1))
+			}
+			return ""
+		}}
+		switch kind {
+		case "srs", "srsunsafec":
+			cd.write = srs.WriteTo
+		case "dump":
+			cd.write = func(w io.Writer) (int64, error) { return -1, srs.WriteDump(w) }
+		default:
+			cd.write = srs.WriteRawTo
+		}
+		switch kind {
+		case "srs", "srsraw":
+			cd.read = d.ReadFrom
+		case "dump":
+			cd.read = func(r io.Reader) (int64, error) { return -1, d.ReadDump(r) }
+		default:
+			cd.read = d.UnsafeReadFrom
+		}
+		return cd, d
+	case "pk", "pkraw", "pkunsafe":
+		d, ok := dst.(*kzg.ProvingKey)
+		if !ok {
+			d = new(kzg.ProvingKey)
+		}
+		cd := c11codec{write: srs.Pk.WriteRawTo, read: d.ReadFrom, same: func() string {
+			if !reflect.DeepEqual(srs.Pk, *d) {
+				return fmt.Sprintf("differs(%d-points)", len(d.G1))
+			}
+			return ""
+		}}
+		if kind == "pk" {
+			cd.write = srs.Pk.WriteTo
+		}
+		if kind == "pkunsafe" {
+			cd.read = d.UnsafeReadFrom
+		}
+		return cd, d
+	case "vk", "vkraw":
+		d, ok := dst.(*kzg.VerifyingKey)
+		if !ok {
+			d = new(kzg.VerifyingKey)
+		}
+		cd := c11codec{write: srs.Vk.WriteRawTo, read: d.ReadFrom, same: func() string {
+			if !reflect.DeepEqual(srs.Vk, *d) {
+				return "differs"
+			}
+			return ""
+		}}
+		if kind == "vk" {
+			cd.write = srs.Vk.WriteTo
+		}
+		return cd, d
+	case "proof":
+		d, ok := dst.(*kzg.OpeningProof)
+		if !ok {
+			d = new(kzg.OpeningProof)
+		}
+		pr := kzg.OpeningProof{H: h.(curve.G1Affine)}
+		if len(vs) > 0 {
+			pr.ClaimedValue = k.frs(vs[:1])[0]
+		}
+		return c11codec{write: pr.WriteTo, read: d.ReadFrom, same: func() string {
+			if !d.H.Equal(&pr.H) || !d.ClaimedValue.Equal(&pr.ClaimedValue) {
+				return "differs"
+			}
+			return ""
+		}}, d
+	case "bproof":
+		d, ok := dst.(*kzg.BatchOpeningProof)
+		if !ok {
+			d = new(kzg.BatchOpeningProof)
+		}
+		pr := kzg.BatchOpeningProof{H: h.(curve.G1Affine), ClaimedValues: k.frs(vs)}
+		return c11codec{write: pr.WriteTo, read: d.ReadFrom, same: func() string {
+			if !d.H.Equal(&pr.H) || len(d.ClaimedValues) != len(pr.ClaimedValues) {
+				return fmt.Sprintf("differs(%d-values)", len(d.ClaimedValues))
+			}
+			for i := range pr.ClaimedValues {
+				if !d.ClaimedValues[i].Equal(&pr.ClaimedValues[i]) {
+					return "differs"
+				}
+			}
+			return ""
+		}}, d
+	case "mpc1", "mpc2", "mpc3":
+		// the transcript of a ceremony of its own after 1/2/3 contributions
+		d, ok := dst.(*kzg.MpcSetup)
+		if !ok {
+			d = new(kzg.MpcSetup)
+		}
+		cur := kzg.InitializeSetup(len(srs.Pk.G1))
+		for i := 0; i < int(kind[3]-'0'); i++ {
+			cur.Contribute()
+		}
+		var first []byte
+		return c11codec{
+			write: func(w io.Writer) (int64, error) {
+				var t bytes.Buffer
+				n, err := cur.WriteTo(io.MultiWriter(w, &t))
+				first = t.Bytes()
+				return n, err
+			},
+			read: d.ReadFrom,
+			same: func() string {
+				var t bytes.Buffer
+				if _, err := d.WriteTo(&t); err != nil || !bytes.Equal(first, t.Bytes()) {
+					return "rewrite-differs"
+				}
+				return ""
+			}}, d
+	}
+	return c11codec{}, nil
+}
+
+// the keys a destination object stands for (the missing half is taken from the reference string that was written)
+func (kzgBn254) asSRS(dst any, written any) (any, int) {
+	w := written.(*kzg.SRS)
+	switch d := dst.(type) {
+	case *kzg.SRS:
+		return d, len(d.Pk.G1)
+	case *kzg.ProvingKey:
+		return &kzg.SRS{Pk: *d, Vk: w.Vk}, len(d.G1)
+	case *kzg.VerifyingKey:
+		return &kzg.SRS{Pk: w.Pk, Vk: *d}, len(w.Pk.G1)
+	}
+	return w, -1
+}
+func (k kzgBn254) proofOf(dst any) (any, []*big.Int) {
+	switch d := dst.(type) {
+	case *kzg.OpeningProof:
+		return d.H, k.bigs([]fr.Element{d.ClaimedValue})
+	case *kzg.BatchOpeningProof:
+		return d.H, k.bigs(d.ClaimedValues)
+	}
+	return curve.G1Affine{}, nil
+}
+
+// a ceremony of `rounds` contributions on n points; every transcript is serialised as it is produced; then the chain is read
+// back and verified link by link (prev.Verify(&q); prev = q). mode:
+//   fresh  : every transcript from its own reader into a fresh variable
+//   reuse  : every transcript from its own reader into ONE variable q (prev = q is a struct copy)
+//   stream / streamreuse : all transcripts (+ trailer bytes) on ONE reader made by mk; the position is checked after each read
+// drop >= 0: that transcript is left out of the chain (the link after it must be refused).
+func (k kzgBn254) mpcChain(mode string, n, rounds, drop, trailer int, mk func([]byte) (io.Reader, func() int)) string {
+	cur := kzg.InitializeSetup(n)
+	var phases [][]byte
+	for i := 0; i < rounds; i++ {
+		cur.Contribute()
+		var t bytes.Buffer
+		nw, err := cur.WriteTo(&t)
+		if err != nil || nw != int64(t.Len()) {
+			return "0:write"
+		}
+		if i != drop {
+			phases = append(phases, t.Bytes())
+		}
+	}
+	var all []byte
+	for _, p := range phases {
+		all = append(all, p...)
+	}
+	for i := 0; i < trailer; i++ {
+		all = append(all, byte(i*37+11))
+	}
+	var shared io.Reader
+	var pos func() int
+	if strings.HasPrefix(mode, "stream") {
+		shared, pos = mk(all)
+	}
+	prev := kzg.InitializeSetup(n)
+	var q kzg.MpcSetup
+	var out []string
+	exp := 0
+	for i := range phases {
+		r := shared
+		if r == nil {
+			r, _ = mk(phases[i])
+		}
+		if mode == "fresh" || mode == "stream" {
+			q = kzg.MpcSetup{}
+		}
+		nr, err := q.ReadFrom(r)
+		exp += len(phases[i])
+		switch {
+		case err != nil:
+			return join(append(out, "0:read:"+strings.ReplaceAll(err.Error(), " ", "_")))
+		case nr != int64(len(phases[i])):
+			return join(append(out, "0:count"))
+		case pos != nil && pos() != exp:
+			return join(append(out, fmt.Sprintf("0:pos:%d/%d", pos(), exp)))
+		}
+		if err := prev.Verify(&q); err != nil {
+			out = append(out, "0")
+			if i != drop { // i == drop is the link that must be refused: go on from the transcript that was read
+				return join(out)
+			}
+		} else {
+			out = append(out, "1")
+		}
+		prev = q
+	}
+	if shared != nil {
+		rest, _ := io.ReadAll(shared)
+		if len(rest) != trailer {
+			return join(append(out, fmt.Sprintf("0:trailer:%d", len(rest))))
+		}
+	}
+	return join(out)
+}
+
+// Seal hands out a reference string; `after` then goes on using the setup (a second Seal, a Contribute, a serialisation round
+// trip). The string handed out must stay what it was, and honest proofs made with it must verify under its own key.
+func (k kzgBn254) seal(n, rounds int, after string) string {
+	cur := kzg.InitializeSetup(n)
+	for i := 0; i < rounds; i++ {
+		cur.Contribute()
+	}
+	srs := cur.Seal([]byte("beacon"))
+	var b0, b1 bytes.Buffer
+	if _, err := srs.WriteRawTo(&b0); err != nil {
+		return "0:write"
+	}
+	for _, a := range strings.Split(after, "+") {
+		switch a {
+		case "none":
+		case "seal":
+			_ = cur.Seal([]byte("other beacon"))
+		case "contribute":
+			cur.Contribute()
+		case "write":
+			var t bytes.Buffer
+			_, _ = cur.WriteTo(&t)
+		default:
+			return "bad-op"
+		}
+	}
+	_, _ = srs.WriteRawTo(&b1)
+	p := make([]*big.Int, n)
+	for i := range p {
+		p[i] = big.NewInt(int64(3 + 5*i))
+	}
+	cm, err := kzg.Commit(k.frs(p), srs.Pk)
+	if err != nil {
+		return boolStr(bytes.Equal(b0.Bytes(), b1.Bytes())) + " " + kzgErr(err)
+	}
+	pr, err := kzg.Open(k.frs(p), k.frs(p[:1])[0], srs.Pk)
+	if err != nil {
+		return boolStr(bytes.Equal(b0.Bytes(), b1.Bytes())) + " " + kzgErr(err)
+	}
+	return boolStr(bytes.Equal(b0.Bytes(), b1.Bytes())) + " " + kzgVerdict(kzg.Verify(&cm, &pr, k.frs(p[:1])[0], srs.Vk))
 }
